@@ -9,7 +9,7 @@ from props import rwcommon as rc
 ID = "C02"
 PROP_FILE = "props/C02.v"
 COQ_TARGETS = ["props/C02.v"]
-THEOREMS = ["C02_emit_observing", "C02_delivered_iff", "C02_delivery_order", "C02_value", "C02_site_value", "C02_frag_stream"]
+THEOREMS = ["C02_emit_observing", "C02_delivered_iff", "C02_delivery_order", "C02_value", "C02_site_value", "C02_frag_stream", "C02_fun_stream"]
 TRUSTED_BASE = [
     "Coq 8.16.1 kernel, vm_compute for the per-program site / erasure certificates",
     "tools/impl/ref_instr.py: the independent reference instrumenter (the event table of DESIGN section 11 as probes on the source AST); "
@@ -150,7 +150,7 @@ def run(ctx, model_ok):
     if model_ok:
         from props import rwfrag
         ksem = rwfrag.check_sem(ctx, rng, 30 if ctx.tier == "quick" else 300)
-    return {
+    res = {
         "evaluations": len(cases),
         "distinct_nontrivial": len({lib.digest(c) for c, im in zip(cases, impl) if len(im.get("ref", [])) >= 5}),
         "rule": "generated programs (see C01) x event subsets of the %d events with an unambiguous source meaning (each alone, all, density 0.1/0.5/0.9) x global guards "
@@ -164,8 +164,16 @@ def run(ctx, model_ok):
                          "certificates_checked": len(rows), "certificates_ok": ok},
         "failures": failures, "extra": {"certificate_failures": len(bad)},
     }
+    if model_ok:
+        # the stream of functions / calls / arguments / return (model/FragFun.v, theorem C02_fun_stream) against real runs
+        from props import fragfun
+        fragfun.run_into(ctx, rng, res, 30 if ctx.tier == "quick" else 400)
+    return res
 
 
 def replay(ctx, rep):
     case = (rep.get("failure") or {}).get("case")
+    if case and case.get("frag") == "fun":
+        from props import fragfun
+        return fragfun.replay_case(case)
     return fails_on_impl(case) if case else None
